@@ -26,7 +26,8 @@ pub fn lines_of_records(recs: &[Rec], lay: &Layout) -> Vec<Vec<u8>> {
         if let Some(d) = &r.desc {
             // a description that starts with a tab is separated from the id by that tab alone ("id<TAB>tag:value", as tools
             // that append tags to read names write it); any other description by a blank
-            if d.first() != Some(&b'\t') {
+            // (a form feed is white space, too)
+            if d.first() != Some(&b'\t') && d.first() != Some(&0x0c) {
                 h.push(b' ');
             }
             h.extend_from_slice(d);
